@@ -929,6 +929,10 @@ impl Gen<'_> {
         let in_loop = self.loop_depth > 0;
         let deep = self.depth >= 3;
         let p = self.profile;
+        if p == Profile::Dead && self.rng.chance(1, 14) {
+            self.trap_statement(out);
+            return false;
+        }
         let w: [u32; 12] = [
             /* 0 make      */ 10,
             /* 1 assign    */ if p == Profile::Mem { 12 } else { 7 },
@@ -1018,6 +1022,51 @@ impl Gen<'_> {
             }
         }
         false
+    }
+
+    /// An operation that can fail at run time, in a position where its value is not used:
+    /// pruning it would make the error disappear.
+    fn trap_statement(&mut self, out: &mut Vec<Stmt>) {
+        let name = self.fresh_name("u");
+        let live = self.rng.chance(1, 2);
+        let e = match self.rng.weighted(&[3, 3, 3, 2]) {
+            0 => {
+                // divisor that is zero only sometimes
+                let d = if live { num(0) } else { num(self.rng.range(0, 1)) };
+                bin(*self.rng.pick(&[BinOp::Divide, BinOp::Mod]), self.num_expr(2), d)
+            }
+            1 => {
+                let k = if live { 7 } else { self.rng.range(0, 3) };
+                Expr::Index(Box::new(Expr::Arr(vec![num(1), num(2)])), Box::new(num(k)))
+            }
+            2 => {
+                // method that the run-time type of the receiver may not have
+                let fname = self.fresh_name("f");
+                let pname = self.fresh_name("p");
+                let uname = self.fresh_name("u");
+                let m = *self.rng.pick(&["len", "abs", "trim", "floor"]);
+                out.push(Stmt::FuncDef(Box::new(FuncDef {
+                    name: fname.clone(),
+                    params: vec![pname.clone()],
+                    param_decls: vec![],
+                    body: Block {
+                        stmts: vec![
+                            Stmt::Make { name: uname, init: Some(method(var(&pname), m, vec![])), decl: u32::MAX },
+                            Stmt::Return(Some(num(i64::from(self.site())))),
+                        ],
+                    },
+                    id: u32::MAX,
+                })));
+                let arg = if self.rng.chance(1, 2) { self.num_lit() } else { self.str_lit() };
+                call(&fname, vec![arg])
+            }
+            _ => {
+                // non-whole index
+                Expr::Index(Box::new(Expr::Arr(vec![num(1), num(2)])), Box::new(Expr::Num("0.5".into())))
+            }
+        };
+        // the declared variable is never read
+        out.push(Stmt::Make { name, init: Some(e), decl: u32::MAX });
     }
 
     fn nested_block(&mut self, dump: bool) -> Block {
